@@ -65,8 +65,16 @@ STEP_ENS = {
     # every step's frame (modifies)
     "cached_fitness_kept": "fitness_stores_monotone()",
     "phenotype_cache_stable": "phenotypes_sticky()",
+    # C16, run-level clause at the step interface: what an elitism step yields contains an individual at least as good as
+    # every member of the population it was given
+    "an_elitism_step_keeps_the_best": "implies(isinstance(self, ElitismStep) and target_size >= 1, forall(0, old(avail(population)), lambda e: "
+    "problem in result[0].fitness_store and problem in old(item(population, e)).fitness_store and "
+    "result[0].fitness_store[problem].maximizing_aggregate >= old(item(population, e)).fitness_store[problem].maximizing_aggregate))",
 }
 STEP_MOD = ["random.*", "evaluator.count", "problem.ff.fn.ncalls", "all:dict[Problem,Fitness]", "all:field:phenotype"]
+for _other in ("IdentityStep", "ParallelStep", "ExclusiveParallelStep", "SequenceStep", "TournamentSelection", "LexicaseSelection", "GenericMutationStep",
+               "GenericCrossoverStep", "NoveltyStep", "EvaluateStep"):
+    R.disjoint.add(("ElitismStep", _other))  # single inheritance from GeneticStep: no step class is also an ElitismStep
 for m in ("iterate", "apply"):
     R.contract(
         f"GeneticStep.{m}",
@@ -88,7 +96,8 @@ R.contract(
     returns="iter[Individual]",
     requires=dict(STEP_REQ),
     ensures=dict(STEP_ENS),
-    loops={0: Loop(invariants={"copied": "len(OUT) == _k and len(current) == _k"}, modifies=["OUT[]", "current[]"])},
+    loops={0: Loop(invariants={"copied": "len(OUT) == _k and len(current) == _k", "yields_what_iterate_yields": "forall(0, _k, lambda j: same(OUT[j], _seq[j]))"},
+                   modifies=["OUT[]", "current[]"])},
     modifies=list(STEP_MOD),
     props=["C15", "C09"],
 )
@@ -124,9 +133,16 @@ R.contract(
                 "telescoping": "len(OUT) == ite(_k == 0, 0, ranges[_k - 1][1])",
                 "population_intact": "len(npopulation) >= target_size",
                 "cached_fitness_kept": "fitness_stores_monotone()", "phenotype_cache_stable": "phenotypes_sticky()",
+                "processed_slices_are_in_the_output": "forall(0, _k, lambda i: ranges[i][1] <= len(OUT) and 0 <= ranges[i][0])",
+                "elitism_slots_so_far_kept_the_best": "forall(0, _k, lambda i: implies(isinstance(self.steps[i], ElitismStep) and ranges[i][1] - ranges[i][0] > 0, forall(0, len(npopulation), lambda e: problem in OUT[ranges[i][0]].fitness_store and problem in npopulation[e].fitness_store and OUT[ranges[i][0]].fitness_store[problem].maximizing_aggregate >= npopulation[e].fitness_store[problem].maximizing_aggregate)))",
             },
             modifies=["OUT[]"] + STEP_MOD,
         )
+    },
+    proves={
+        # C16, second sentence, at the level of one generation step: if a slice of positive size is given to an elitism step, the
+        # new population contains an individual at least as good as every member of the old one
+        "a_reserved_elitism_slot_keeps_the_best": "forall(0, len(self.steps), lambda i: implies(isinstance(self.steps[i], ElitismStep) and ranges[i][1] - ranges[i][0] > 0, forall(0, len(npopulation), lambda e: problem in result[ranges[i][0]].fitness_store and problem in npopulation[e].fitness_store and result[ranges[i][0]].fitness_store[problem].maximizing_aggregate >= npopulation[e].fitness_store[problem].maximizing_aggregate)))",
     },
     modifies=list(STEP_MOD),
     props=["C15", "C16", "C09"],
